@@ -11,7 +11,7 @@ import itertools
 
 from ..program import AnalysisError, walk_local, dotted
 from ..analysis import Spec, src, const_value
-from ..rules import (strip_wrappers, kw, canon, cond_equiv, flow_canon, chained_assign_value, substitute_locals,
+from ..rules import (ctext, strip_wrappers, kw, canon, cond_equiv, flow_canon, chained_assign_value, substitute_locals,
                      iteration_outcomes, kind_env, GWF, EXC, need_func, stores_to, is_const, raise_class,
                      eval_atom, eval_cond, UNKNOWN, parent_map)
 from . import common
@@ -189,12 +189,17 @@ def compare_queues_table(prog, an, rep):
                          (True, (2, 2), 'delegate'),
                          (False, (3, 2), 'delegate')):
         a, b = l1
-        env = {'v1[0] == v2[0]': same, 'v1[1] == v2[1]': same,
-               'len(v1) == 3': a == 3, 'len(v2) == 2': b == 2,
-               'len(v2) == 3': b == 3, 'len(v1) == 2': a == 2}
+        # the version tuples of the two entries, whatever the locals are
+        # called
+        p1, p2 = f.params[0], f.params[1]
+        v1, v2 = p1 + '[0]', p2 + '[0]'
+        env = {'%s[0] == %s[0]' % (v1, v2): same,
+               '%s[1] == %s[1]' % (v1, v2): same,
+               'len(%s) == 3' % v1: a == 3, 'len(%s) == 2' % v2: b == 2,
+               'len(%s) == 3' % v2: b == 3, 'len(%s) == 2' % v1: a == 2}
         got = _ret_values(an, f, env)
         want = {l2} if l2 != 'delegate' else {
-            'compare_branches(version1, version2)'}
+            'compare_branches(%s, %s)' % (p1, p2)}
         rep.evaluated()
         rep.check(got == want, R, '%s: same line=%s lengths=%s -> %s' % (
             f.qname, same, l1, l2), f.where(), 'compare_queues answers %s' %
@@ -668,7 +673,7 @@ def target_version_cases(prog, an, rep):
                     src(x.left).endswith('[DevelopmentBranch].micro'):
                 off.append(x.right)
     def is_offset(e):
-        hs = '%s[DevelopmentBranch].has_stabilization' % holder
+        hs = ctext(f, '%s[DevelopmentBranch].has_stabilization' % holder)
         if isinstance(e, ast.IfExp):
             return canon(f, e.test) == hs and is_const(e.body, 2) and \
                 is_const(e.orelse, 1)
